@@ -7,6 +7,7 @@ import Gpa.Model.Hex
 import Gpa.Model.Health
 import Gpa.Model.RbacWire
 import Gpa.Model.PipelineWire
+import Gpa.Model.Attribution
 
 open Gpa
 
@@ -14,6 +15,7 @@ structure DState where
   health : Health.StatusState :=
     Health.StatusState.new Facts.healthErrorThreshold Facts.healthMaxConsecutive
   svc : Health.ServiceState := []
+  attr : Attribution.Server := { audit := [], conns := [] }
 
 def stepLine (st : DState) (line : String) : DState × String :=
   match line.trimAscii.toString.splitOn " " with
@@ -40,6 +42,48 @@ def stepLine (st : DState) (line : String) : DState × String :=
       match Tok.run (do let e ← Pipeline.pEnv; let c ← Pipeline.pConn; let r ← Pipeline.pReq; pure (e, c, r)) toks with
       | some (e, c, r) =>
           (st, s!"S{if Pipeline.specMayRelay e c r then 1 else 0} " ++ Pipeline.showResult (Pipeline.handle Pipeline.macPlaceholder e c r))
+      | none => (st, "bad-op")
+  | ["attr", "new"] => ({ st with attr := { audit := [], conns := [] } }, "ok")
+  | ["attr", "record", p, e, ip, port] =>
+      match p.toNat?, port.toNat?, Hex.decodeString ip with
+      | some p, some port, some ip =>
+          let rec_ : Attribution.Record := { caller := { claims := ⟨[], [], [], []⟩, elevated := e == "1" }, dest := (ip.toList, port) }
+          let (s', _) := Attribution.step Pipeline.macPlaceholder ⟨.ok none, .ok none, .ok none, none, []⟩ st.attr (.kernelRecord p rec_)
+          ({ st with attr := s' }, "ok")
+      | _, _, _ => (st, "bad-op")
+  | ["attr", "accept", id, p] =>
+      match id.toNat?, p.toNat? with
+      | some id, some p =>
+          let (s', _) := Attribution.step Pipeline.macPlaceholder ⟨.ok none, .ok none, .ok none, none, []⟩ st.attr (.accept id p)
+          let ctx := match Attribution.ctxOf s' id with
+            | some { caller := some c, dest := some (ip, port) } => s!"A {if c.elevated then 1 else 0} {String.ofList ip} {port}"
+            | _ => "U"
+          ({ st with attr := s' }, ctx)
+      | _, _ => (st, "bad-op")
+  | ["attr", "ctx", id] =>
+      match id.toNat? with
+      | some id =>
+          (st, match Attribution.ctxOf st.attr id with
+            | some { caller := some c, dest := some (ip, port) } => s!"A {if c.elevated then 1 else 0} {String.ofList ip} {port}"
+            | some _ => "U"
+            | none => "closed")
+      | none => (st, "bad-op")
+  | ["attr", "close", id] =>
+      match id.toNat? with
+      | some id =>
+          let (s', _) := Attribution.step Pipeline.macPlaceholder ⟨.ok none, .ok none, .ok none, none, []⟩ st.attr (.close id)
+          ({ st with attr := s' }, "ok")
+      | none => (st, "bad-op")
+  | ["attr", "ports"] =>
+      let ps := Text.sortBy (fun a b => decide (a < b)) (st.attr.audit.map (·.1))
+      (st, if ps.isEmpty then "-" else ",".intercalate (ps.map toString))
+  | "authz" :: toks =>
+      match Tok.run (do let ip ← Tok.str; let port ← Tok.nat; let e ← Pipeline.pBool
+                        let rules ← Tok.opt Rbac.pItem; let u ← Rbac.pUri; let c ← Rbac.pClaims
+                        pure (ip, port, e, rules, u, c)) toks with
+      | some (ip, port, e, rules, u, c) =>
+          let r := Pipeline.authorize (Pipeline.endpointOf ip port) { claims := c, elevated := e } u rules
+          (st, match r with | .ok => "ok" | .okWithAudit => "audit" | .forbidden => "forbidden")
       | none => (st, "bad-op")
   | "canon" :: toks =>
       -- canon <method> <uri> <headers> <body>: both signing routes
